@@ -416,7 +416,8 @@ class _Engine:
         if isinstance(st, ast.Return):
             state = self.expr(state, st.value)
             if state is not TOP and st.value is not None and au.is_self_attr(st.value) \
-                    and st.value.attr in lc.guard_fields and st.value.attr not in state:
+                    and (st.value.attr in lc.guard_fields or any(st.value.attr in w for w in lc.writers().values())) \
+                    and st.value.attr in lc.lazy and st.value.attr not in state:
                 lc.derefs_checked += 1
                 lc.report(self.entry, st, st.value.attr, "returned while possibly None", self.path,
                           id(st.value) in self.try_depth_nodes)
